@@ -76,6 +76,47 @@ def r06_pos(chk, prog, rule="R06-pos"):
     chk.rule(rule, "direct TokenIter::next calls: inside get_token, or for a peeked comment", n, floor=2)
 
 
+def r06_line(chk, prog, rule="R06-line"):
+    """token lines (and through them the position of every diagnostic) come from one counter per scan: in tokenizer.rs every
+    addition to a u32 line counter adds the result of count_newlines() over a span of the text (no second way of counting that
+    could skip part of the text)"""
+    n = 0
+    for fid, b in sorted(prog.bodies.items()):
+        if b.file != "a2lfile/src/tokenizer.rs" or "::test" in fid or fid.endswith("count_newlines"):
+            continue
+        for bi, si, st in b.stmts():
+            if st["k"] != "assign" or st["rv"]["r"] != "bin" or not st["rv"]["op"].startswith("Add"):
+                continue
+            ops = [mir.op_place(st["rv"]["a"]), mir.op_place(st["rv"]["b"])]
+            tys = [b.locals[o["l"]]["ty"] if o is not None and not o["p"] else None for o in ops]
+            if "u32" not in tys:
+                continue
+            # one operand is the running counter (a named local or parameter `line` / `*line*`), the other what is added
+            names = [(b.locals[o["l"]].get("n") or "") if o is not None and not o["p"] else "" for o in ops]
+            if not any("line" in nm for nm in names):
+                srcs = []
+                for o in ops:
+                    if o is not None and not o["p"]:
+                        for bj, sj, s2 in b.stmts():
+                            if s2["k"] == "assign" and not s2["p"]["p"] and s2["p"]["l"] == o["l"] and s2["rv"]["r"] == "use":
+                                pl = mir.op_place(s2["rv"]["a"])
+                                if pl is not None and not pl["p"]:
+                                    srcs.append(b.locals[pl["l"]].get("n") or "")
+                if not any("line" in nm for nm in srcs):
+                    continue
+            n += 1
+            from_count = False
+            for o, c in zip(ops, (st["rv"]["a"], st["rv"]["b"])):
+                if o is None or o["p"]:
+                    continue
+                for bj, t in b.calls():
+                    if t.get("dest") and not t["dest"]["p"] and t["dest"]["l"] == o["l"] and mir.strip_generics(t.get("res") or "").endswith("count_newlines"):
+                        from_count = True
+            if not from_count:
+                chk.add(Finding(rule, "%s::%s" % (rule, mir.strip_generics(fid)), "%s advances a line counter by something other than count_newlines() of the consumed text: tokens behind that point (and every diagnostic there) can carry a wrong line" % fid, b.where(st["ln"])))
+    chk.rule(rule, "additions to the scanner's line counters that add count_newlines() of a text span", n, floor=4)
+
+
 def r06_msg(chk, rule="R06-msg"):
     """a diagnostic is read through its Display text: for every ParserError / TokenizerError variant that carries the position of the
     problem (`filename` and `error_line`, resp. `line`), the text starts with exactly those two fields as `file:line:`; every other
@@ -112,6 +153,7 @@ def run(chk):
     scope = scopes.load_scope(prog)
     r06_msg(chk)
     r06_pos(chk, prog)
+    r06_line(chk, prog)
     # ------------------------------------------------------------------ R06-single
     readers = set()
     n = 0
